@@ -342,6 +342,14 @@ inductive Reach : Sys → Sys → Prop
   | refl (s) : Reach s s
   | step {a b c} : Reach a b → Step b c → Reach a c
 
+/-- replay of a schedule (a list of thread numbers); `none` if a scheduled thread is not enabled -/
+def run (s : Sys) : List Nat → Option Sys
+  | [] => some s
+  | t :: ts =>
+    match step? s t with
+    | none => none
+    | some s' => run s' ts
+
 /-- the programs a scenario may start with -/
 def Pc.initial : Pc → Bool
   | .rChk _ false | .tChk | .gChk | .sChk | .cCas (.ret .okUnit) | .pCas | .wS | .xCancel => true
